@@ -636,10 +636,18 @@ CLAIMED["C02"] = dict(
          "was confirmed on the real code and repaired, F38-F41: DOCTYPE in 'in table text', characters under a template "
          "current node in table modes, unmatched end tag reaching the root of a foreign-context fragment, <input> in a "
          "select-context fragment); the theorem is now against the unmodified specification. "
+         "THE CAPSTONE (Props/C02Parse.lean, Spec/Parse.lean, Lemmas/HtmlParseSpec*.lean): C02_parse_eq_spec_facts / _chunked - for EVERY input "
+         "text, either exact_errors, both discard_bom, any chunking: the JOINT model of driver.rs (tokenizer model with the "
+         "tree-builder model as its sink, C03Joint's parseChunks) delivers exactly the token stream of Spec.HtmlTokenizer "
+         "coupled with the unmodified Spec.TreeModes by the standard's own feedback (Spec.Parse.specParse), and the DOM calls, "
+         "quirks mode, final insertion mode and tokenizer answers of specParse are those of the model (composition of C01Sim, "
+         "C02Modes strict, C03Joint/C03Tree; the tokenizer-protocol hypothesis Respects2 of C02Modes is PROVED as a fact of "
+         "every joint run: lower-case tag names, distinct attribute names, no U+0000 in character tokens, EOF once and last, "
+         "the 'text' mode protocol). Remaining hypotheses: the joint run succeeds (totality: C04), noQuirks start, "
+         "drop_doctype off, no shadowrootmode attribute, EmptyOk (ignore_lf clear whenever the EMPTY character token that "
+         "`<![CDATA[]]>` produces arrives - observation recorded in DESIGN; holds on all examples, decidable emptyOkB). "
          "NOT proved: C02_table_body_end_ok_partial (parse-error-only table lacks rb/rtc), handle_misnested_a_tags, parse "
-         "errors, the self-closing acknowledgement and declarative shadow roots, and - as ONE theorem - the composition "
-         "tokenizer = spec (C01) + tree builder = spec (here) through the joint driver (C03Joint's replay theorem links "
-         "them); the per-insertion-mode rule arms (rules.rs) compared with an INDEPENDENT implementation — no complete independent Lean transcription of "
+         "errors, the self-closing acknowledgement and declarative shadow roots; the per-insertion-mode rule arms (rules.rs) compared with an INDEPENDENT implementation — no complete independent Lean transcription of "
          "section 13.2.6 exists here. That part is carried by (a) the differential against the patched html5lib 1.1 "
          "reference on documents and HTML-context fragments, scripting on/off (directed token families rendered as text, "
          "dispatcher cover, themed tag soup, doctype identifiers in mixed case / truncated / extended; thorough tier: "
